@@ -118,6 +118,35 @@ pub fn main() -> i32 {
             replay(&args[2], &args[3])
         }
         "selftest" => super::selftest::run(),
+        "gen-fuzz-seeds" => {
+            // development aid: golden inputs for the two libFuzzer targets
+            let dir = args.get(2).cloned().unwrap_or_else(|| "/verif/seeds".to_string());
+            super::fuzz::write_seeds(&dir)
+        }
+        "fuzz-replay" => {
+            // mverif fuzz-replay <frames|stream> <file>: run one saved libFuzzer input (strict)
+            super::sut::global_init();
+            super::sut::capture_init();
+            let data = match std::fs::read(args.get(3).map(|s| s.as_str()).unwrap_or("")) {
+                Ok(d) => d,
+                Err(e) => {
+                    eprintln!("cannot read input: {}", e);
+                    return 2;
+                }
+            };
+            let r = if args.get(2).map(|s| s.as_str()) == Some("stream") { super::fuzz::stream_checked(&data) } else { super::fuzz::frames_checked(&data) };
+            match r {
+                Ok(n) => {
+                    eprintln!("fuzz input holds ({} frames/streams judged)", n);
+                    0
+                }
+                Err((p, m)) => {
+                    eprintln!("VIOLATION property={} replay={}", p, args.get(3).cloned().unwrap_or_default());
+                    eprintln!("  {}", m);
+                    1
+                }
+            }
+        }
         "find-underflow" => {
             // development aid: find a tuple whose SYN cookie is 0xFFFFFFFF under the given key
             let k0: u64 = args.get(2).and_then(|s| s.parse().ok()).unwrap_or(1);
@@ -156,18 +185,37 @@ fn replay(id: &str, path: &str) -> i32 {
     };
     super::sut::global_init();
     super::sut::capture_init();
-    let txt = match std::fs::read_to_string(path) {
+    let raw = match std::fs::read(path) {
         Ok(t) => t,
         Err(e) => {
             eprintln!("cannot read {}: {}", path, e);
             return 2;
         }
     };
-    let rf: ReplayFile = match serde_json::from_str(&txt) {
-        Ok(r) => r,
-        Err(e) => {
-            eprintln!("cannot parse {}: {}", path, e);
-            return 2;
+    let rf: ReplayFile = match std::str::from_utf8(&raw).ok().and_then(|t| serde_json::from_str(t).ok()) {
+        Some(r) => r,
+        None => {
+            // not a JSON replay file: a saved libFuzzer input of this property's fuzz target
+            return match super::fuzzrun::target_for(id) {
+                Some(t) => {
+                    let r = if t == "fz_stream" { super::fuzz::stream_checked(&raw) } else { super::fuzz::frames_checked(&raw) };
+                    match r {
+                        Ok(n) => {
+                            eprintln!("replay {}: fuzz input holds ({} frames/streams judged)", path, n);
+                            0
+                        }
+                        Err((p, m)) => {
+                            eprintln!("VIOLATION property={} replay={}", p, path);
+                            eprintln!("  {}", m);
+                            1
+                        }
+                    }
+                }
+                None => {
+                    eprintln!("cannot parse {} as a replay file", path);
+                    2
+                }
+            };
         }
     };
     let known = load_known(id);
@@ -429,11 +477,45 @@ fn parent(id: &str, tier: Tier) -> i32 {
             infra.push(format!("[{}/{}] {}", r.profile, r.idx, e));
         }
     }
+    // thorough tier: coverage-guided campaign (E3) for the properties that have a fuzz target
+    let mut fuzz_violations: Vec<(String, String, PathBuf)> = Vec::new();
+    let mut fuzz_notes: Vec<String> = Vec::new();
+    if (tier == Tier::Thorough || std::env::var("VERIF_FUZZ").is_ok()) && super::fuzzrun::target_for(id).is_some() && std::env::var("VERIF_NO_FUZZ").is_err() {
+        super::sut::global_init();
+        super::sut::capture_init();
+        let runs: u64 = std::env::var("VERIF_FUZZ_RUNS").ok().and_then(|s| s.parse().ok()).unwrap_or(if id == "C01" || id == "C11" { 1_500_000 } else { 400_000 });
+        let fo = super::fuzzrun::run(id, seed, &verif_dir(), &work, runs, w);
+        total.evaluations += fo.executed;
+        total.extra.insert("fuzz".into(), fo.evidence);
+        for (p, m, path) in fo.violations {
+            if p == id {
+                fuzz_violations.push((p, m, path));
+            } else {
+                fuzz_notes.push(format!("the {} campaign found a violation of {} (not the property being checked; run ./check {} thorough): {} [{}]", super::fuzzrun::target_for(id).unwrap_or(""), p, p, truncate(&m, 300), path.display()));
+            }
+        }
+        for e in fo.infra {
+            infra.push(e);
+        }
+    }
     let _ = std::fs::remove_dir_all(&work);
     let _ = std::fs::remove_dir(vdir.join(".work"));
 
     // verdict
     let mut code = 0;
+    for n in &fuzz_notes {
+        println!("NOTE property={} {}", id, n);
+    }
+    let mut fuzz_seen = HashSet::new();
+    for (p, m, path) in &fuzz_violations {
+        if !fuzz_seen.insert(truncate(m, 60)) {
+            continue;
+        }
+        println!("VIOLATION property={} replay={}", p, path.display());
+        println!("  stream=fuzz key=None");
+        println!("  {}", truncate(m, 1500));
+        code = 1;
+    }
     for (k, (n, msg)) in &total.known_seen {
         let text = known.get(k).cloned().unwrap_or_default();
         println!("KNOWN-FINDING: property={} key={} {} [seen {}x, e.g. {}]", id, k, text, n, truncate(msg, 300));
@@ -458,6 +540,7 @@ fn parent(id: &str, tier: Tier) -> i32 {
         println!("  {}", truncate(&f.failure.msg, 1500));
         code = 1;
     }
+    nviol += fuzz_seen.len();
     for e in &infra {
         println!("INFRA property={} {}", id, truncate(e, 600));
     }
